@@ -74,7 +74,12 @@ def _join_attachment(ns_soap_env, href_id, envelope, payload, prefix=True,
     """
 
     # grab the XML element of the message in the SOAP body
-    soaptree = etree.fromstring(envelope, parser=parser)
+    try:
+        soaptree = etree.fromstring(envelope, parser=parser)
+    except (etree.XMLSyntaxError, ValueError) as e:
+        raise ValidationError(None, "Invalid SOAP envelope: %s" %
+                                                  str(e).replace('%', '%%'))
+
     soapbody = soaptree.find("{%s}Body" % ns_soap_env)
 
     if soapbody is None:
